@@ -133,6 +133,8 @@ impl<A: Actor, R: RestartStrategy<A>> Environment<A, R> {
             actor.stopped(&mut self.ctx).await;
 
             self.stop.notify();
+            #[cfg(feature = "verif")]
+            crate::verif::sync_point().await;
             Ok(actor)
         };
 
@@ -181,6 +183,8 @@ impl<A: Actor, R: RestartStrategy<A>> Environment<A, R> {
             actor.stopped(&mut self.ctx).await;
 
             self.stop.notify();
+            #[cfg(feature = "verif")]
+            crate::verif::sync_point().await;
             Ok(actor)
         };
 
